@@ -1082,7 +1082,13 @@ func (e *FnEnc) makeIface(v Val, t types.Type) Val {
 	}
 	tag := e.typeTag(t)
 	if v.Loc != nil {
-		unsup("interior pointer boxed in interface")
+		// a field/element address boxed into an interface (binary.Read(r, order, &x.f)): the interface value
+		// carries an opaque token; the pointee is havocked where the interface is handed to an opaque callee
+		// (calls.go looks through the MakeInterface). Unboxing such a value again is not supported.
+		e.note("interior pointer boxed in an interface value: opaque token (only passing it on to library calls is modelled)")
+		tok := e.decl(e.fresh("ifaceptr"), "Int")
+		e.assume("(> " + tok + " 0)")
+		return Val{T: types.NewInterfaceType(nil, nil), L: []string{tag, tok}}
 	}
 	var payload string
 	switch {
